@@ -31,12 +31,13 @@ Other(x) == IF x = "A" THEN "B" ELSE "A"
      apex    x.<apex>                         apexup  x.<APEX in upper case>
      acme    x.<acme zone>                    apexspaced / acmespaced  the apex / ACME-zone name with white space INSIDE the zone
      unicode a name with a non-ASCII label (denotes its punycode form)
+     apexself / acmeself  the apex / the ACME zone itself (three labels each in the driver: the bare-domain rule does not cover them)
    proof: valid (solved for the DNS name the request denotes) | validsent (solved for the string as sent, generated where that differs) | missing | wrongsubject (solved for another name) | tampered (signature) | expired | easy (too few bits)
    cname: what the resolver answers for the hostname's challenge name: the caller's token-specific target (own),
           the other client's target (other), something else (junk), no such name (none)
    bound: the binding stored before the call: none | same (the caller) | other (the other client) *)
-HostClasses  == {"valid", "upper", "spaced", "bare", "apex", "apexup", "acme", "apexspaced", "acmespaced", "unicode"}
-RefusedHost(h) == h \in {"bare", "apex", "apexup", "acme", "apexspaced", "acmespaced"}
+HostClasses  == {"valid", "upper", "spaced", "bare", "apex", "apexup", "acme", "apexspaced", "acmespaced", "unicode", "apexself", "acmeself"}
+RefusedHost(h) == h \in {"bare", "apex", "apexup", "acme", "apexspaced", "acmespaced", "apexself", "acmeself"}
 SentDiffers(h) == h \in {"upper", "spaced", "apexup", "apexspaced", "acmespaced", "unicode"}     \* the string sent is not the name it denotes
 Proofs  == {"valid", "validsent", "missing", "wrongsubject", "tampered", "expired", "easy"}
 Cnames  == {"own", "other", "junk", "none"}
@@ -55,7 +56,7 @@ Holder(caller, b) == CASE b = "none" -> "none" [] b = "same" -> caller [] b = "o
    of the binding afterwards *)
 CheckAcme(x, pre) ==      \* "err" | "found" | "notfound"
   IF x.proof # "valid" THEN "err"                       \* the proof is verified against the normalized name: "validsent" fails too
-  ELSE IF x.host \in {"apex", "acme", "apexspaced", "acmespaced"} THEN "err"        \* strings.Contains(normalized hostname, acme / apex)
+  ELSE IF x.host \in {"apex", "acme", "apexspaced", "acmespaced", "apexself", "acmeself"} THEN "err"        \* strings.Contains(normalized hostname, acme / apex)
   ELSE IF x.host = "bare" THEN "err"                    \* fewer than two dots
   ELSE IF x.fault # "none" THEN "err"                   \* tun.FindCustomHostname fails: the request fails with it
   ELSE IF pre = "none" THEN "notfound"
